@@ -1,6 +1,6 @@
 """C11 — Packets are parsed independently; generators and definitions do not interfere.
 
-Kernel E-hist + interleavings.  (i) every stream of <= 4 packets over a 5-packet palette (two
+Kernel E-hist + interleavings.  (i) every stream of <= 4 packets over a 6-packet palette (two
 recognised APIDs with different layouts, an unrecognised APID, a too-long and a too-short packet)
 under all 8 option combinations equals the concatenation of the per-packet solo results; (ii) every
 lattice-path interleaving of next() calls over 2 (and 3) generators sharing one definition gives
@@ -41,7 +41,7 @@ def the_doc():
     conts = (
         Container("CCSDSPacket", header_entries(), abstract=True),
         Container("A", (("p", "A_LEN"), ("p", "A_PAD"), ("p", "A_BLOB"), ("p", "A_CAL"), ("p", "A_STR")), base="CCSDSPacket",
-                  criteria=(Cmp("PKT_APID", "==", "1"),)),
+                  criteria=(Cmp("PKT_APID", "==", "1"), Cmp("TYPE", "==", "0"))),
         Container("B", (("p", "B_F"), ("p", "B_E"), ("p", "B_P"), ("p", "B_S")), base="CCSDSPacket", criteria=(Cmp("PKT_APID", "==", "2"),)),
         Container("S", (("p", "S_BYTE"),), base="CCSDSPacket", criteria=(Cmp("PKT_APID", "==", "4"),)),
     )
@@ -54,7 +54,9 @@ def palette_packets():
     unrec = framing.mk_packet(b"\x01\x02\x03", apid=3, seqcount=30)
     a_long = framing.mk_packet(bytes([0x20 | 0x0A, 0x99, 0x10, 0x43, 0x44, 0xEE, 0xEF]), apid=1, seqcount=11)  # LEN=1, 2 extra bytes
     a_short = framing.mk_packet(bytes([0x40 | 0x01, 0x11, 0x22, 0x33, 0x45]), apid=1, seqcount=12)              # LEN=2, string cut short
-    return [a_clean, b_clean, unrec, a_long, a_short]
+    # unrecognised although it carries a recognised APID (recognition depends on more than the APID)
+    unrec_same_apid = framing.mk_packet(bytes([0x40 | 0x15, 0xDE, 0xAD, 0x07, 0x41, 0x42]), apid=1, type_=1, seqcount=13)
+    return [a_clean, b_clean, unrec, a_long, a_short, unrec_same_apid]
 
 
 def obs_item(p):
@@ -106,7 +108,9 @@ def _task_streams(task):
         solo = {}
         for oi, opts in enumerate(OPTS):
             for pi, p in enumerate(pal):
-                solo[(oi, pi)] = run_stream(defn, p, opts)[0]
+                # "on its own": a fresh definition object per packet, so that nothing an earlier packet left behind can leak in
+                fresh = load_doc(doc) if task["via"] == "xml" else build_objects(doc)
+                solo[(oi, pi)] = run_stream(fresh, p, opts)[0]
         with case_alarm(900):
             for seq in task["seqs"]:
                 stream = b"".join(pal[i] for i in seq)
@@ -134,7 +138,7 @@ def _task_streams(task):
             t.violation({"kind": "package-state-changed", "attrs": ch[:4]}, {"via": task["via"]}, observed=ch[:10],
                         note="module- or class-level state of the package changed while parsing")
     if task["seqs"]:
-        t.sample({"stream": list(task["seqs"][-1]), "palette": ["A-clean", "B-clean", "unrecognised", "A-too-long", "A-too-short"], "options": "all 8 combinations"})
+        t.sample({"stream": list(task["seqs"][-1]), "palette": ["A-clean", "B-clean", "unrecognised", "A-too-long", "A-too-short", "unrecognised-with-a-recognised-APID"], "options": "all 8 combinations"})
     return t
 
 
@@ -155,6 +159,7 @@ def stream_specs():
     s3, s4 = seg_packets()
     return [
         ("S1", b"".join(pal[i] for i in (0, 1, 2, 3)), {"yield_unrecognized_packet_errors": True}, "bytes"),
+        ("S6", b"".join(pal[i] for i in (5, 0, 5, 3)), {"yield_unrecognized_packet_errors": True}, "bytes"),
         ("S2", b"".join(pal[i] for i in (1, 4, 0)), {"parse_bad_pkts": False}, "bytes"),
         ("S3", s3, {"combine_segmented_packets": True}, "bytes"),
         ("S4", s4, {"combine_segmented_packets": True, "yield_unrecognized_packet_errors": True}, "bytes"),
@@ -254,13 +259,14 @@ def _task_interleave(task):
 
 
 def run(ctx):
-    n = 5
+    n = len(palette_packets())
     seqs = [s for k in range(1, 5) for s in itertools.product(range(n), repeat=k)]
     tasks = [{"seqs": ch, "via": "xml"} for ch in chunked(seqs, 24)] + [{"seqs": seqs[::7], "via": "objects"}]
     tally = fan_out(_task_streams, tasks, jobs=ctx.jobs, seed=ctx.seed)
-    pairs = list(itertools.product(range(5), repeat=2))
+    ns = len(stream_specs())
+    pairs = list(itertools.product(range(ns), repeat=2))
     itasks = [{"combos": [c], "max_items": 6} for c in pairs]
-    triples = [c for c in itertools.product(range(5), repeat=3) if len(set(c)) >= 2][:: (4 if ctx.quick else 1)]
+    triples = [c for c in itertools.product(range(ns), repeat=3) if len(set(c)) >= 2][:: (6 if ctx.quick else 1)]
     itasks += [{"combos": [c], "max_items": 2 if ctx.quick else 3} for c in triples]
     t2 = fan_out(_task_interleave, itasks, jobs=ctx.jobs, seed=ctx.seed)
     tally.merge(t2)
@@ -269,8 +275,8 @@ def run(ctx):
         "transitions": tally.transitions,
         "traces_validated_against_impl": tally.traces,
         "exhaustive": True,
-        "bound": (f"(i) every stream of <= 4 packets over a 5-packet palette ({len(seqs)} streams) x all 8 combinations of parse_bad_pkts / "
-                  "yield_unrecognized_packet_errors / ccsds_headers_only vs. per-packet solo results; (ii) k=2: every ordered pair of 5 generators "
+        "bound": (f"(i) every stream of <= 4 packets over a 6-packet palette ({len(seqs)} streams) x all 8 combinations of parse_bad_pkts / "
+                  "yield_unrecognized_packet_errors / ccsds_headers_only vs. per-packet solo results; (ii) k=2: every ordered pair of 6 generators "
                   "(two with combine_segmented_packets, one over a scripted socket) x ALL lattice-path interleavings of their next() calls up to exhaustion; "
                   f"k=3: {len(triples)} triples with <= {2 if ctx.quick else 3} steps each, all interleavings; (iii) definition canon + written XML unchanged; "
                   "(iv) package footprint unchanged"),
